@@ -51,4 +51,4 @@ def transparent_when_true(case, ctx):
         ctx.count("metamorphic:true-is-transparent")
 
 
-check_case, run, replay = gfi_hist.make_prop(CFG, CHECKS, kinds=TOP, nontrivial=nontrivial, examples=(8, 8), pre=transparent_when_true)
+check_case, run, replay = gfi_hist.make_prop(CFG, CHECKS, kinds=TOP, nontrivial=nontrivial, examples=(6, 6), pre=transparent_when_true)
